@@ -357,8 +357,34 @@ func (in *Interp) callNativeMethod(n Native, name string, args []Value, sig *typ
 		panic(abortPath{"unsupported", fmt.Sprintf("native method %T.%s not found", n.V, name)})
 	}
 	in.FnSeen[fmt.Sprintf("native:(%T).%s", n.V, name)]++
-	return in.callNative(m, args, sig)
+	// symbolic FST values travel through vellum as tagged handles (tag 01 is reserved by zapx)
+	if _, ok := n.V.(*vellum.Builder); ok && name == "Insert" {
+		if t, ok := args[1].(*term.Term); ok {
+			h := handleTag | uint64(len(in.ghost.handles))
+			in.ghost.handles = append(in.ghost.handles, t)
+			args = []Value{args[0], h}
+		}
+	}
+	res := in.callNative(m, args, sig)
+	if len(in.ghost.handles) > 0 && (name == "Get" || name == "Current") {
+		if tp, ok := res.(Tuple); ok {
+			for i, v := range tp {
+				if u, ok := v.(uint64); ok && u&handleMask == handleTag {
+					idx := int(u &^ handleMask)
+					if idx < len(in.ghost.handles) {
+						tp[i] = in.ghost.handles[idx]
+					}
+				}
+			}
+		}
+	}
+	return res
 }
+
+const (
+	handleMask = uint64(0xc000000000000000)
+	handleTag  = uint64(0x4000000000000000)
+)
 
 // nativeMethodHooks intercept selected native methods (key "%T.Method").
 var nativeMethodHooks = map[string]func(in *Interp, n Native, args []Value) (Value, bool){}
